@@ -212,6 +212,7 @@ type tlEngine struct {
 	ctxs       map[*ssa.Function]map[string]map[int]bool
 	changed    bool
 	localOwned map[string]bool // "fn|tab" -> slots of this local table are all owned (optimistic fixpoint)
+	paramOwned map[string]bool // "fn#k" -> parameter k of fn always receives a table its caller built and owns
 	curRound   int
 	base       *tlEngine // level 64: the level-32 engine, whose verdicts summarise the 32-bit API used on buckets
 }
@@ -1996,8 +1997,64 @@ func (t *tlFunc) atomOwned(a atom, facts factSet) bool {
 		if isLocalRoot(a.tab) && t.e.localTableOwned(t, a.tab) {
 			return true
 		}
+		// a private helper that works on a table every caller has just built (the result under construction
+		// passed down after an extract-function refactoring)
+		if pi, _, ok := rootParam(a.tab); ok && !isExportedAPI(t.fn) && t.fn.Parent() == nil && t.e.paramTableOwned(t.fn, pi, 0) {
+			return true
+		}
 	}
 	return false
+}
+
+// paramTableOwned: every static call of f passes, for parameter k, (a pointer into) a table that the caller
+// created itself and whose slots are all owned — or the caller's own parameter with the same property.
+func (e *tlEngine) paramTableOwned(f *ssa.Function, k int, depth int) bool {
+	key := fmt.Sprintf("%s#%d", f.String(), k)
+	if v, ok := e.paramOwned[key]; ok {
+		return v
+	}
+	if e.paramOwned == nil {
+		e.paramOwned = map[string]bool{}
+	}
+	if depth > 3 {
+		return false
+	}
+	e.paramOwned[key] = true // optimistic while the callers are inspected
+	calls := 0
+	result := true
+	for _, g := range e.fns {
+		if g == f {
+			continue
+		}
+		var t *tlFunc
+		for _, b := range g.Blocks {
+			for _, ins := range b.Instrs {
+				c, ok := ins.(*ssa.Call)
+				if !ok || c.Call.StaticCallee() != f || k >= len(c.Call.Args) {
+					continue
+				}
+				calls++
+				if t == nil {
+					t = e.funcState(g)
+				}
+				r := t.root(c.Call.Args[k])
+				switch {
+				case isLocalRoot(r) && e.localTableOwned(t, r):
+				case func() bool {
+					pi, _, ok := rootParam(r)
+					return ok && !isExportedAPI(g) && g.Parent() == nil && e.paramTableOwned(g, pi, depth+1)
+				}():
+				default:
+					result = false
+				}
+			}
+		}
+	}
+	if calls == 0 {
+		result = false
+	}
+	e.paramOwned[key] = result
+	return result
 }
 
 func (e *tlEngine) localTableOwned(t *tlFunc, tab string) bool {
